@@ -2851,6 +2851,27 @@ func (p *Posix) PutObject(ctx context.Context, po s3response.PutObjectInput) (s3
 			return s3response.PutObjectOutput{}, s3err.GetAPIError(s3err.ErrDirectoryObjectContainsData)
 		}
 
+		// a checksum sent along is an assertion about the (empty)
+		// body like for any other object
+		for _, config := range []hashConfig{
+			{po.ChecksumCRC32, utils.HashTypeCRC32},
+			{po.ChecksumCRC32C, utils.HashTypeCRC32C},
+			{po.ChecksumSHA1, utils.HashTypeSha1},
+			{po.ChecksumSHA256, utils.HashTypeSha256},
+			{po.ChecksumCRC64NVME, utils.HashTypeCRC64NVME},
+		} {
+			if config.value == nil {
+				continue
+			}
+			hr, err := utils.NewHashReader(strings.NewReader(""), *config.value, config.hashType)
+			if err != nil {
+				return s3response.PutObjectOutput{}, fmt.Errorf("initialize hash reader: %w", err)
+			}
+			if _, err := io.Copy(io.Discard, hr); err != nil {
+				return s3response.PutObjectOutput{}, err
+			}
+		}
+
 		err = backend.MkdirAll(name, uid, gid, doChown, p.newDirPerm)
 		if err != nil {
 			if errors.Is(err, syscall.EDQUOT) {
